@@ -11,6 +11,7 @@ import (
 type RaceReport struct {
 	Key  string // outermost validate frames of the two stacks, line numbers stripped
 	Text string
+	From int // first case index of the child process which produced the report
 }
 
 var frameRe = regexp.MustCompile(`^\s+(github\.com/go-openapi/validate[^\s(]*)\(`)
